@@ -423,18 +423,26 @@ def replay(prop, path, known):
         o = _worker((prop, case))
         if o["error"] is not None:
             if o["error"]["in_repo"]:
-                print(o["error"]["tb"])
-                print(f"VIOLATION property={prop} replay={path}")
-                return 1
-            print(o["error"]["tb"], file=sys.stderr)
-            return 3
-        bad = [r for r in o["results"] if not r["ok"]]
+                er = o["error"]
+                o["results"] = [Res(f"{prop}/no-exception", False, f"{er['type']}: {er['msg']}\n{er['tb']}")]
+            else:
+                print(o["error"]["tb"], file=sys.stderr)
+                return 3
+        bad = []
+        for r in o["results"]:
+            if r["ok"]:
+                continue
+            k = match_known(known, prop, r["obligation"], case, r["detail"])
+            if k is not None:  # the replayed case is a recorded finding: reported as such, not as a new violation
+                print(f"KNOWN-FINDING: property={prop} {k['obligation']}: {k['what']}")
+                continue
+            bad.append(r)
         for r in bad:
             print(f"  failing: {r['obligation']}: {r['detail'][:600]}")
         if bad:
             print(f"VIOLATION property={prop} replay={path}")
             return 1
-        print(f"replay of {ob}: all contract clauses hold on this tree")
+        print(f"replay of {ob}: no contract clause fails on this tree beyond the recorded findings")
         return 0
     # proof-only replay: re-run the named obligation
     proofs = run_proofs(prop, "quick", 0)
